@@ -3,6 +3,14 @@
 import json, subprocess
 
 CLAIMS = {
+ "C01": dict(
+   text="Proof: the object invariant machInv of the channel state machine (every non-nil staged signature slot is authenticated for exactly the staged state - verified against every address of that participant, or produced by channel.Sign in the own slot; the current transaction's slots are either all filled and authenticated for exactly the current state, or all nil) is established by newMachine and required/ensured by every machine and StateMachine operation, on success and on error, in every phase, for all arguments. The per-method postconditions show the current transaction changes only by promotion of a fully signed staged transaction or by SetProgressed (the all-nil alternative = adopted from a progression event). Arbitrary call sequences follow by induction; a writes-closure side check shows no other code writes the fields.",
+   note="Trusted: channel.Verify/Sign as pure functions (verifyOK/ownSig), go/ssa, govc's instruction model, SMT solvers. Assumes states and signature slices handed to the machine are not mutated afterwards; ForceUpdate only with an existing current state (as the property's quantifier says); restoreMachine's source satisfies the invariant (not under contract); ActionMachine not under contract.",
+   design="4/C01"),
+ "C02": dict(
+   text="Proof: machine.ValidTransition returns nil if and only if the candidate carries the channel id and app, follows a non-final state, has exactly the next version, is a valid allocation (dimensions, limits, non-negative amounts: Allocation.Valid/SubAlloc.Valid proved as iff against validAlloc), keeps the asset list and satisfies the sum relation; StateMachine.validTransition adds 'actor is an existing participant' and the app rule; Update and CheckUpdate succeed iff that holds (Update additionally phase Acting) and otherwise change nothing; newState/Init produce version 0, the channel id and a valid allocation with one balance per participant or fail. Sig signs only the staged state and channel.Sign has no other call site, so refused candidates are never signed.",
+   note="NOT yet discharged in this round: the arithmetic of the per-asset totals - polybig.EqualSum/Allocation.Sum/Balances.Sum are represented by a trusted ghost relation (sumsEqAlloc) returned by EqualSum; app rules are interface contracts (payment/no-app bodies not yet verified). Assumes the current state is well-formed with version < 2^64-1 and non-nil balances/assets.",
+   design="4/C02"),
  "C09": dict(
    text="Proof: every operation of the channel state machine (machine.go) is verified, for all pre-states satisfying the machine's object invariant and all arguments, against a contract taken from the property statement: success <=> documented phase/signature/final-flag precondition, success => documented target phase and effect, failure => phase, staged and current transaction (including signature list contents) unchanged, own signatures only in signing phases over the staged state. The phase tables are proved from the package initialiser and shown read-only; arbitrary call sequences follow by induction over the invariant.",
    note="Trusted: go/ssa, govc's instruction model, SMT solvers, library specs (pkg/errors, logging), channel.Sign/Verify as pure functions of (address, state, signature); assumes states/signature slices handed to the machine are not mutated afterwards and candidate states are non-nil. Sequential semantics.",
